@@ -26,7 +26,6 @@ import (
 	"testing"
 	"time"
 
-	"github.com/google/uuid"
 	"pgregory.net/rapid"
 
 	"github.com/element-of-surprise/coercion/workflow"
@@ -517,8 +516,6 @@ func classifyUpdate(op Op, mark func(string)) {
 		}
 	}
 }
-
-var _ = uuid.Nil
 
 func TestC13(t *testing.T) {
 	vprop.Run(t, vprop.Spec[Program]{
